@@ -222,12 +222,17 @@ fn opt_fit(v: &Value) -> Option<Vec<f64>> {
 // ------------------------------------------------------------------ DynamicSelective: rewards through telemetry
 struct ScriptedOp {
     next: Arc<Mutex<Vec<f64>>>,
+    sleep_ms: Arc<Mutex<u64>>,
 }
 impl HeuristicSearchOperator for ScriptedOp {
     type Context = Ctx;
     type Objective = Lex;
     type Solution = Sol;
     fn search(&self, _: &Ctx, _: &Sol) -> Sol {
+        let ms = *self.sleep_ms.lock().unwrap();
+        if ms > 0 {
+            std::thread::sleep(std::time::Duration::from_millis(ms));
+        }
         Sol { fit: self.next.lock().unwrap().clone() }
     }
 }
@@ -275,9 +280,10 @@ fn telemetry(ds: &DynamicSelective<Ctx, Lex, Sol>) -> (Vec<Value>, Vec<Value>) {
 fn op_reward(case: &Value) -> Value {
     let nops = usize_of(&case["nops"]);
     let next = Arc::new(Mutex::new(vec![]));
+    let sleep_ms = Arc::new(Mutex::new(0u64));
     let mut ctx = Ctx::new(true);
     let ops: HeuristicSearchOperators<Ctx, Lex, Sol> =
-        (0..nops).map(|k| (Arc::new(ScriptedOp { next: next.clone() }) as Arc<_>, format!("op{k}"), 1.)).collect();
+        (0..nops).map(|k| (Arc::new(ScriptedOp { next: next.clone(), sleep_ms: sleep_ms.clone() }) as Arc<_>, format!("op{k}"), 1.)).collect();
     let div: HeuristicDiversifyOperators<Ctx, Lex, Sol> = vec![];
     let mut ds = DynamicSelective::new(ops, div, &ctx.env);
     let steps = case["steps"].as_array().unwrap();
@@ -287,6 +293,7 @@ fn op_reward(case: &Value) -> Value {
         ctx.stats.generation = k;
         ctx.stats.improvement_1000_ratio = f64_of(&st["ratio"]);
         *next.lock().unwrap() = f64s_of(&st["new"]);
+        *sleep_ms.lock().unwrap() = st["sleep_ms"].as_u64().unwrap_or(0);
         let init = Sol { fit: f64s_of(&st["init"]) };
         let many = st["many"].as_bool().unwrap_or(false);
         let r = catch_unwind(AssertUnwindSafe(|| {
